@@ -19,7 +19,7 @@
 (*     (C01 decode, C08 query, C09 leaf): every history up to MaxHist;     *)
 (*   - random walks over all setters and operations (C18).                 *)
 (***************************************************************************)
-EXTENDS MxjOptions, MxjSeq, MxjArgs, MxjCast, Json
+EXTENDS MxjOptions, MxjSeq, MxjArgs, MxjMutate, MxjCast, Json
 CONSTANTS ActiveFns, ActiveOps, MaxHist
 VARIABLES opt, hist
 vars == <<opt, hist>>
@@ -65,12 +65,28 @@ SubKeyStrs == {<<"c", ":", "x">>, <<"c", "|", "x">>, <<"c", "|", "x", ":", "x">>
 CastTexts == {"Infinity", "+Inf", "NaN", "1", "1.5", "true", "9223372036854775807", "v"}
 CastOptsOf(o) == [cast |-> TRUE, toInt |-> o.castInt, toFloat |-> o.castFloat, toBool |-> o.castBool, nanInf |-> o.castNanInf, skipTag |-> "0"]
 
+\* new-value strings "k<sep>v" of UpdateValuesForPath: split by the SAME field-separator register as sub-keys
+NewValStrs == {<<"c", ":", "N">>, <<"c", "|", "N">>, <<"c", "|", "x", ":", "N">>, <<"c", ":", "x", "|", "N">>}
+UpdResult(o, s) == LET ps == SplitOn(s, o.fieldSep) IN
+                   IF NewValClass(s, o.fieldSep) = "err" THEN [ok |-> FALSE, c |-> 0, post |-> ProbeQMap]
+                   ELSE LET r == UpdateOp(ProbeQMap, Join(ps[1]), VS(Join(ps[2])), <<"a">>, {}) IN [ok |-> TRUE, c |-> r.c, post |-> r.n]
+\* Elements / Attributes of the node "doc" of the leaf probe: keys in byte order, split by the attribute prefix
+StructKeys == <<"#text", "-x", "@y", "_text", "e">>
+IsAttrK(o, k) == o.attrPrefix # "" /\ SubSeq(k, 1, Len(o.attrPrefix)) = o.attrPrefix
+StripPfx(o, k) == SubSeq(k, Len(o.attrPrefix) + 1, Len(k))
+\* NewMapJson of {"n":1.50,"s":"x"}: the number as float64, or its text under JsonUseNumber
+JsonProbeResult(o) == VM(("n" :> IF o.jsonUseNumber THEN [t |-> "num", v |-> "1.50"] ELSE VF("1.5")) @@ ("s" :> VS("x")))
+
 \* the operations: [op |-> class, arg |-> which]
 AllOps == {[op |-> "dec", arg |-> a] : a \in {"plain", "cast"}} \cup {[op |-> "seq", arg |-> "plain"], [op |-> "enc", arg |-> "plain"]}
           \cup {[op |-> "leaf", arg |-> a] : a \in {"T", "F"}}
           \cup {[op |-> "query", arg |-> Join(s)] : s \in SubKeyStrs}
+          \cup {[op |-> "upd", arg |-> Join(s)] : s \in NewValStrs}        \* UpdateValuesForPath(s, "a") on a copy of the query probe
+          \cup {[op |-> "struct", arg |-> a] : a \in {"elems", "attrs"}}   \* Elements("doc") / Attributes("doc") of the leaf probe
+          \cup {[op |-> "seqrt", arg |-> "plain"]}                         \* MapSeq.Xml() of NewMapXmlSeq(probe)
+          \cup {[op |-> "json", arg |-> "plain"]}                          \* NewMapJson of a document with a non-canonical numeral
           \cup {[op |-> "cast", arg |-> t] : t \in CastTexts}          \* NewMapXml(<r><c>t</c></r>, true): kind and token of the leaf
-Enabled(o, op) == CASE op.op \in {"seq", "enc", "cast"} -> CodecDomain(o)
+Enabled(o, op) == CASE op.op \in {"seq", "enc", "cast", "seqrt"} -> CodecDomain(o)
                     [] op.op = "dec" -> CodecDomain(o) /\ (op.arg = "cast" => DefaultCastRegs(o))   \* (the decode specification models the default cast registers; the full chain is MxjCast)
                     [] OTHER -> TRUE
 \* the result the specification gives for an operation under registers o
@@ -82,6 +98,12 @@ OpResult(o, op) ==
     [] op.op = "enc" -> Join(RenderCompact(EncodeRoot(ProbeMap, <<>>, EncOpts(o)), EncOpts(o)))
     [] op.op = "leaf" -> LeafSeq(ProbeLeafMap, op.arg = "T", o.dot, AttrKeysOf(o), o.keyPrefix \o "text")
     [] op.op = "query" -> QueryResult(o, CHOOSE s \in SubKeyStrs : Join(s) = op.arg)
+    [] op.op = "upd" -> UpdResult(o, CHOOSE s \in NewValStrs : Join(s) = op.arg)
+    [] op.op = "struct" -> IF op.arg = "elems" THEN SelectSeq(StructKeys, LAMBDA k : ~IsAttrK(o, k))
+                           ELSE LET ks == SelectSeq(StructKeys, LAMBDA k : IsAttrK(o, k)) IN [i \in 1..Len(ks) |-> StripPfx(o, ks[i])]
+    [] op.op = "seqrt" -> LET so == SeqOpts(o) IN
+                          Join(RenderSeq(EncodeSeqRoot(DecodeSeq(ProbeSeqDoc, so), so), [apfx |-> "-", kpfx |-> o.keyPrefix, esc |-> o.escEnc, goempty |-> o.goEmpty]))
+    [] op.op = "json" -> JsonProbeResult(o)
     [] op.op = "cast" -> CastOf(CHOOSE c \in Catalogue : c.s = op.arg, CastOptsOf(o), FALSE)     \* (the harness' skip function never names the key "c")
 
 ActiveOpSet == {op \in AllOps : op.op \in ActiveOps}
@@ -103,7 +125,10 @@ Functional == \A i, j \in 1..Len(hist) :
                     => hist[i].r = hist[j].r
 \* an operation only depends on the registers its class lists (MxjOptions!Relevant)
 OpClass(op) == CASE op = "dec" -> "decodeCast" [] op = "seq" -> "decodeSeq" [] op = "enc" -> "encode" [] op = "leaf" -> "leaf" [] op = "query" -> "query"
-RelOf(op) == IF op = "cast" THEN CastRegs \ {"skipTag"} ELSE Relevant[OpClass(op)]
+                 [] op = "upd" -> "query" [] op = "struct" -> "struct" [] op = "json" -> "jsonDecode"
+RelOf(op) == IF op = "cast" THEN CastRegs \ {"skipTag"}
+             ELSE IF op = "seqrt" THEN Relevant["decodeSeq"] \cup Relevant["encodeSeq"]
+             ELSE Relevant[OpClass(op)]
 OnlyRelevant == Len(hist) = MaxHist => \A op \in ActiveOpSet :      \* (evaluated where a session ends: it is a function of opt alone)
                    LET po == Project(opt, RelOf(op.op)) IN
                    (Enabled(opt, op) /\ Enabled(po, op)) => OpResult(opt, op) = OpResult(po, op)
@@ -112,5 +137,5 @@ Emit == Len(hist) = MaxHist =>
    PrintT(ToJson([f |-> "mxj", hist |-> hist, restore |-> RestoreCalls(TRUE)]))
 AllFns == ToggleNames \cup {"DisableTrimWhiteSpace", "PrependAttrWithHyphen", "SetAttrPrefix", "XMLEscapeChars", "XMLEscapeCharsDecoder",
            "XmlGoEmptyElemSyntax", "XmlDefaultEmptyElemSyntax", "SetFieldSeparator", "SetArraySize", "SetGlobalKeyMapPrefix", "JsonUseNumber"}
-AllOpNames == {"dec", "seq", "enc", "leaf", "query", "cast"}
+AllOpNames == {"dec", "seq", "enc", "leaf", "query", "cast", "upd", "struct", "seqrt", "json"}
 =============================================================================
